@@ -429,7 +429,10 @@ def module_files_case(ctx, case):
         val_file = names if len(names) > 1 else names[0]
         dl_names = [f"set{j}" for j in range(len(names))] if (len(names) > 1 and case.get("named")) else None
         env = cls(generator_params=dict(num_loc=sizes[0]), data_dir=d, val_file=val_file, test_file=tfn, val_dataloader_names=dl_names, check_solution=False)
-        model = REINFORCE(env, policy=policies.make("am", env), baseline="no", batch_size=4, val_batch_size=bs, test_batch_size=bs, train_data_size=8, val_data_size=N, test_data_size=N)
+        # (the documented training-loader option must not leak into the validation / test loaders, which report per-position results)
+        model = REINFORCE(env, policy=policies.make("am", env), baseline="no", batch_size=4, val_batch_size=bs, test_batch_size=bs, train_data_size=8, val_data_size=N, test_data_size=N,
+                          shuffle_train_dataloader=bool(case.get("shuffle_train")))
+        sig["shuffle_train"] = bool(case.get("shuffle_train"))
 
         def expected(fn):
             raw = dict(np.load(os.path.join(d, fn)))
